@@ -281,7 +281,9 @@ def http_automaton(msgs, proto, te):
                 verdict = "invalid"
             else:
                 verdict = "unjudged"
-                if proto == "h2" and state in ("REQUEST", "TRAILERS") and not m.get("more_trailers", False):
+                # before any start: a trailers-only response, possible only towards a client that takes trailers (otherwise there is no
+                # response to end and the message is refused, which leaves the later ones unjudged)
+                if proto == "h2" and (state == "TRAILERS" or (state == "REQUEST" and te)) and not m.get("more_trailers", False):
                     state = "CLOSED"
         elif t == "http.response.early_hint":
             verdict = "unjudged"
@@ -460,6 +462,10 @@ def check(case, obs, tally):
             if nfinal > 1:
                 out.append({"clause": "wire-prefix", "sig": "C12.wire/h2/two-final-heads",
                             "detail": "stream %d carries %d final response heads (sequence %r)" % (sid, nfinal, t["seq"])})
+            if (s.data_frames or s.ended) and not s.heads and s.rst is None:
+                out.append({"clause": "wire-prefix", "sig": "C12.wire/h2/data-before-headers",
+                            "detail": "stream %d: DATA / END_STREAM on the wire without any response HEADERS before it (sequence %r, payload %s)" % (
+                                sid, t["seq"], t["sub"])})
             for h in s.heads:
                 heads.extend(h or [])
                 names = [bytes(nme) for nme, _ in (h or [])]
